@@ -99,6 +99,15 @@ package cache
 //@   requires msg != nil && validRRs(msg.Answer) && validRRs(msg.Ns)
 //@   ensures only-complete-answers: ok ==> !msg.Truncated && len(msg.Question) == 1 && (msg.Rcode == 0 || msg.Rcode == 3 || msg.Rcode == 2)
 
+// What the cache keeps is a copy of its own: the message handed to set is
+// written to the client afterwards and may be changed in place on the way
+// (truncation), which must not reach the cached item.
+//@ func (*Middleware).toCacheItem
+//@   property C04
+//@   nilrecv
+//@   requires msg != nil
+//@   ensures the-cache-keeps-its-own-copy: item.msg != nil && item.msg != msg && fresh(item.msg)
+
 // set stores the response under the key of the REQUEST, and only cacheable
 // responses with a non-zero lowest TTL.
 //@ func (*Middleware).set
